@@ -11,7 +11,7 @@ EXPLANATION = (
     "side (core iff size >= min_samples: only the >= side reaches cluster expansion / queue growth); every radius "
     "query in fit takes parameters.eps, the fitted model stores parameters.eps and predict queries with the stored "
     "eps; the parameter guards of fit refuse no eps > 0 and no min_samples >= 1. The radius boundary itself (d <= r, "
-    "same in both backends) is the C04 gate rule, re-evaluated here. Connectivity, border assignment and label "
+    "same in both backends) is the C04 gate rule, re-evaluated here together with the cover tree's pruning rule (a subtree is kept whenever d <= eps + covering radius, so a point at distance exactly eps is never pruned away: backend-independent neighbourhoods). Connectivity, border assignment and label "
     "numbering are not decided."
 )
 FIT = r"^cluster::dbscan::DBSCAN::<T, D>::fit$"
@@ -114,6 +114,10 @@ def run(ck, prog):
     from props import C04
     C04.radius_gate(ck, prog, C04.LS + "find_radius$", "LinearKNNSearch::find_radius admits d<=r")
     C04.radius_gate(ck, prog, C04.CT + "find_radius$", "CoverTree::find_radius admits d<=r")
+    # the cover tree must not prune a subtree that can still hold a point at distance exactly eps
+    C04.pruning(ck, prog, C04.CT + "find_radius$", "CoverTree::find_radius prunes by radius + max_dist",
+                lambda t: t[0] == "arg" and t[1] == 3, frozenset("nz"))
+    ck.floor("E2g-pruning", 1)
     ck.floor("E1-guard", 2)
     ck.floor("E1-gate", 4)
     ck.floor("E2-provenance", 4)
